@@ -8,6 +8,7 @@ from ..astutil import (dotted, call_name, receiver, txt, calls_in,
 from ..excdom import ExcAnalysis, pyparsing_converts_indexerror
 from ..loader import AnalysisError, FuncInfo
 from .dataset import _factors, ctor_arg
+from . import verdict as V
 
 T4 = 'valjean.eponine.tripoli4.'
 CONV = T4 + 'data_convertor'
@@ -1143,3 +1144,133 @@ def check_edge_exact(ctx):
         ctx.holds('EDGE-EXACT', 'valjean.eponine readers',
                   f'{n} functions: no comparison with an absolute tolerance',
                   nontrivial=False)
+
+
+# ---------------------------------------------------------- TOKEN-ORDER ---
+
+# function -> reason the order of its tokens carries no meaning
+UNORDERED_TOKENS = {
+    'convert_correspondence_table':
+        'a table of (volume id, volume name) pairs used as a mapping: the '
+        'order of its rows identifies nothing',
+}
+
+
+def check_token_order(ctx):
+    """Tokens keep the order of the listing: a parse action of transform.py
+    that returns its tokens converted (ids of the scoring zone, coordinates
+    of a point, energies ...) does not sort, reverse or pass them through a
+    set.  The position IS the meaning: `Frontier volumes : 2,1` is the
+    current from volume 2 to volume 1, `Point : x,y,z` a coordinate triple."""
+    program = ctx.program
+    mod = program.module('valjean.eponine.tripoli4.transform')
+    program.consulted.add(mod.relpath)
+    n_fun = 0
+    for func in mod.functions.values():
+        params = [p for p in func.params if p not in ('self', 'cls')]
+        if not params:
+            continue
+        n_fun += 1
+        derived = V.derived_names(func.node, set(params))
+        parents = enclosing_chain(func.node)
+        for node in walk_local(func.node):
+            what = None
+            if isinstance(node, ast.Call) and isinstance(
+                    node.func, ast.Name) and node.func.id in (
+                        'sorted', 'set', 'frozenset', 'reversed') and \
+                    node.args and V.mentions(node.args[0], derived):
+                what = node.func.id + '()'
+            elif isinstance(node, ast.Call) and call_name(node) in (
+                    'sort', 'reverse') and receiver(node) is not None and \
+                    V.mentions(receiver(node), derived):
+                what = '.' + call_name(node) + '()'
+            elif isinstance(node, ast.Subscript) and isinstance(
+                    node.slice, ast.Slice) and isinstance(
+                        node.slice.step, ast.UnaryOp) and V.mentions(
+                            node.value, derived):
+                what = '[::-1]'
+            if what is None:
+                continue
+            # used for a test only (membership, containment, equality of
+            # contents): nothing re-ordered reaches the result
+            cur, tested = node, False
+            while cur is not None and not isinstance(cur, ast.stmt):
+                par = parents.get(id(cur))
+                if isinstance(par, ast.Compare) or (isinstance(
+                        par, (ast.If, ast.While, ast.IfExp, ast.Assert))
+                        and cur is par.test):
+                    tested = True
+                cur = par
+            if tested:
+                continue
+            reason = UNORDERED_TOKENS.get(func.name)
+            if reason is not None:
+                ctx.holds('TOKEN-ORDER', func, f'{func.name}: {what} on the '
+                          f'tokens (documented exception)',
+                          at=func.where(node), detail=reason,
+                          nontrivial=False)
+                continue
+            ctx.violated('TOKEN-ORDER', func,
+                         f'{func.name}: the converted tokens are re-ordered '
+                         f'by {what}: {txt(node)[:60]}', at=func.where(node),
+                         detail='the order of the ids / coordinates in the '
+                                'listing identifies the scoring zone '
+                                '(frontier 2,1 is not frontier 1,2; a point '
+                                'is (x, y, z))')
+    ctx.floor('TOKEN-ORDER', n_fun, 10, 'parse actions in transform.py')
+    ctx.holds('TOKEN-ORDER', 'transform', f'{n_fun} parse actions examined',
+              nontrivial=False)
+
+
+# ----------------------------------------------------------- TIME-FIRST ---
+
+def check_time_first(ctx):
+    """The times of an edition are fixed by the first line that gives them
+    (`setdefault`): the line closing the edition.  The only overwrite of the
+    shipped code is reserved to listings that announce a PARTIAL EDITION
+    (`self.partial`).  Any other store into self.times[kind][batch] lets a
+    line printed AFTER the edition change its results: the same complete
+    edition then reads differently from a listing cut before that line."""
+    program = ctx.program
+    klass = program.cls(f'{SCAN}:Scanner')
+    program.consulted.add(klass.module.relpath)
+    n_first = n_over = 0
+    for meth in klass.methods.values():
+        parents = enclosing_chain(meth.node)
+        for node in walk_local(meth.node):
+            if isinstance(node, ast.Call) and call_name(node) == \
+                    'setdefault' and 'self.times' in txt(node.func):
+                n_first += 1
+            if not isinstance(node, (ast.Assign, ast.AugAssign)):
+                continue
+            tgts = node.targets if isinstance(node, ast.Assign) else \
+                [node.target]
+            for tgt in tgts:
+                if not (isinstance(tgt, ast.Subscript) and isinstance(
+                        tgt.value, ast.Subscript) and txt(
+                            tgt.value.value) == 'self.times'):
+                    continue
+                n_over += 1
+                guards = []
+                cur = node
+                while cur is not None:
+                    par = parents.get(id(cur))
+                    if isinstance(par, ast.If):
+                        in_body = any(cur is s for s in par.body)
+                        guards.append((txt(par.test), in_body))
+                    cur = par
+                ok = any(test == 'self.partial' and in_body
+                         for test, in_body in guards)
+                ctx.decide('TIME-FIRST', meth,
+                           f'{meth.name}: {txt(node)[:60]} overwrites the '
+                           f'time of an edition ' +
+                           ('under `if self.partial`' if ok else
+                            'outside `if self.partial`'), ok,
+                           at=meth.where(node),
+                           detail=None if ok else
+                           'a line that follows the edition changes the '
+                           'results of the edition: a listing cut before '
+                           'that line gives another value for the same, '
+                           'complete, edition')
+    ctx.floor('TIME-FIRST', n_first, 1, 'self.times...setdefault(batch, '
+              'time) in Scanner')
